@@ -308,6 +308,8 @@ func (e EpSpec) Options(server bool, env *Env, name string) (copts []dtls.Client
 	}
 	if e.ReplayWindow > 0 {
 		add(dtls.WithReplayProtectionWindow(e.ReplayWindow))
+	} else if e.ReplayWindow == -1 {
+		add(dtls.WithReplayProtectionWindow(0)) // the option given explicitly with its zero value: the default window
 	}
 	if e.CIDLen >= 0 {
 		cid := e.CIDOf()
